@@ -75,6 +75,7 @@ class address_offsets:
     start - p_vaddr + p_offset, in segment order"""
     params = dict(self=ELFFileT(_section_header_stringtable=Opt(SectionT('StringTableSection'))), start=U64, size=U64)
     requires = ELFFILE_INV
+    solver = dict(timeout_ms=60000)     # the per-yield clause was once left undecided when nineteen checks shared the machine (0.6 s alone)
     yield_shape = Int
     # step: an iteration yields exactly when its segment wholly contains the range -- with the enumeration's own step clause
     # (every index is visited, a segment is passed on exactly when its type matches) this is the completeness half of
